@@ -110,11 +110,15 @@ pub struct Profile {
     pub config: bool,
     pub max_stmts: usize,
     pub sfc: bool,
+    /// name prefix (keeps independently generated units disjoint)
+    pub prefix: String,
+    /// upper bound on the number of top-level declarations (0 = none)
+    pub max_decls: usize,
 }
 
 impl Default for Profile {
     fn default() -> Self {
-        Profile { max_types: 4, max_fbs: 3, max_funcs: 2, max_progs: 2, config: true, max_stmts: 6, sfc: true }
+        Profile { max_types: 4, max_fbs: 3, max_funcs: 2, max_progs: 2, config: true, max_stmts: 6, sfc: true, prefix: String::new(), max_decls: 0 }
     }
 }
 
@@ -199,6 +203,8 @@ pub struct VGen<'a, 't, 'g> {
     cur_class: String,
     ref_edges: usize,
     marker_n: usize,
+    /// external names declared by the POU being generated
+    cur_scope_names: Vec<String>,
 }
 
 const NUM_TYPES: [ElementaryTypeName; 6] = [
@@ -637,6 +643,18 @@ impl<'a, 't, 'g> VGen<'a, 't, 'g> {
     /// use of variable `v` in a body: returns the name to spell (a marker when the fault is planted here)
     fn var_use(&mut self, v: &str) -> String {
         if self.site(FaultKind::UndeclaredVar) {
+            // a name that is declared nowhere - or (other documented shape of the same rule) the
+            // name of a global variable that this POU does not declare as VAR_EXTERNAL
+            if !self.globals.is_empty() && self.t_free_flag() && self.g.want("UNDECLARED_USE_OF_GLOBAL_NAME") {
+                let g = self.globals[self.sites.iter().sum::<usize>() % self.globals.len()].name.clone();
+                if !self.cur_scope_names.iter().any(|n| n.eq_ignore_ascii_case(&g)) {
+                    self.set_marker(&g);
+                    if let Some(p) = &mut self.planted {
+                        p.site_class = format!("{}.global-without-external", p.site_class);
+                    }
+                    return g;
+                }
+            }
             let m = self.marker("undeclared");
             self.set_marker(&m);
             m
@@ -884,10 +902,12 @@ impl<'a, 't, 'g> VGen<'a, 't, 'g> {
             self.set_marker(&g.name);
         }
         self.ref_edges += 1;
+        self.cur_scope_names.push(g.name.clone());
         out.push(vd(&g.name, VariableType::External, q, simple(g.ty.clone().into(), None)));
         scope.push(VarInfo { name: g.name.clone(), kind: if g.constant { VKind::SimpleRo(g.ty.clone()) } else { VKind::Simple(g.ty.clone()) } });
     }
     fn gen_fb(&mut self, out: &mut Vec<LibraryElementKind>) {
+        self.cur_scope_names.clear();
         self.cur_decl = out.len();
         self.cur_class = "fb".into();
         let name = self.fresh();
@@ -949,6 +969,7 @@ impl<'a, 't, 'g> VGen<'a, 't, 'g> {
         }));
     }
     fn gen_func(&mut self, out: &mut Vec<LibraryElementKind>) {
+        self.cur_scope_names.clear();
         self.cur_decl = out.len();
         self.cur_class = "func".into();
         let name = self.fresh();
@@ -982,6 +1003,7 @@ impl<'a, 't, 'g> VGen<'a, 't, 'g> {
         self.funcs.push(f);
     }
     fn gen_prog(&mut self, out: &mut Vec<LibraryElementKind>) {
+        self.cur_scope_names.clear();
         self.cur_decl = out.len();
         self.cur_class = "prog".into();
         let name = self.fresh();
@@ -1090,7 +1112,11 @@ pub fn gen_unit_multi(t: &mut Tape, gates: &Gates, profile: &Profile, fault: Vec
         t,
         g: gates,
         p: profile.clone(),
-        names: Names::new(),
+        names: {
+            let mut n = Names::new();
+            n.prefix = profile.prefix.clone();
+            n
+        },
         fault,
         sites: [0; 16],
         planted: None,
@@ -1107,23 +1133,33 @@ pub fn gen_unit_multi(t: &mut Tape, gates: &Gates, profile: &Profile, fault: Vec
         cur_class: String::new(),
         ref_edges: 0,
         marker_n: 0,
+        cur_scope_names: vec![],
     };
     let mut out = vec![];
     g.plan_globals();
     g.gen_types(&mut out);
+    let cap = if profile.max_decls == 0 { usize::MAX } else { profile.max_decls };
+    let want_config = !g.globals.is_empty();
+    let room = |out: &Vec<LibraryElementKind>| out.len() + if want_config { 1 } else { 0 } < cap;
     let nf = g.t.count(0, profile.max_funcs);
     for _ in 0..nf {
-        g.gen_func(&mut out);
+        if room(&out) {
+            g.gen_func(&mut out);
+        }
     }
     let nfb = g.t.count(0, profile.max_fbs);
     for _ in 0..nfb {
-        g.gen_fb(&mut out);
+        if room(&out) {
+            g.gen_fb(&mut out);
+        }
     }
     let np = g.t.count(if out.is_empty() { 1 } else { 0 }, profile.max_progs);
     for _ in 0..np {
-        g.gen_prog(&mut out);
+        if room(&out) || out.is_empty() {
+            g.gen_prog(&mut out);
+        }
     }
-    if !g.globals.is_empty() || (profile.config && g.t.ratio(1, 3)) {
+    if want_config || (profile.config && g.t.ratio(1, 3) && out.len() < cap) {
         g.gen_config(&mut out);
     }
     let mut all = g.planted_all;
